@@ -1,6 +1,7 @@
 """Proof-layer audit: the development builds (full .vo), the pinned statements still type-check
 against the compiled theorems, every theorem's axioms are on the allow-list, and no
 Admitted / Axiom / disabled check appears anywhere in the sources."""
+import sys
 import os, re, subprocess, glob
 from lib import *
 
@@ -101,7 +102,44 @@ def audit(prop):
         else:
             res["discharged"] += 1
         res["theorems"].append({"name": name, "axioms": axioms})
+    if _tier() == "thorough":
+        coqchk(prop, res)
     return res
+
+
+def _tier():
+    t = os.environ.get("VERIF_TIER", "quick")
+    if "--tier" in sys.argv:
+        t = sys.argv[sys.argv.index("--tier") + 1]
+    return t
+
+
+def coqchk(prop, res):
+    """thorough tier: re-check the compiled property file and everything it depends on with Coq's independent
+    checker, and compare the axioms it reports with the allow-list"""
+    try:
+        p = subprocess.run(["coqchk", "-silent", "-o", "-Q", os.path.join(COQDIR, "theories"), "QV",
+                            "QV.Properties.%s" % prop],
+                           stdout=subprocess.PIPE, stderr=subprocess.STDOUT, text=True, timeout=1500)
+    except subprocess.TimeoutExpired:
+        res["problems"].append("coqchk timed out on QV.Properties.%s" % prop)
+        return
+    out = p.stdout
+    if p.returncode != 0 or "CONTEXT SUMMARY" not in out:
+        res["problems"].append("coqchk failed on QV.Properties.%s: %s" % (prop, out[-800:]))
+        return
+    summ = out.split("CONTEXT SUMMARY")[-1]
+    ax = re.findall(r"(?m)^\s{4}([A-Za-z_][\w.']*)\s*$", summ.split("* Axioms:")[1].split("* Constants")[0])
+    short = [".".join(a.split(".")[-2:]) for a in ax]
+    bad = [a for a in short if a not in ALLOWED_AXIOMS]
+    for key in ("type-in-type", "unsafe (co)fixpoints", "positivity is assumed"):
+        line = [l for l in summ.splitlines() if key in l]
+        if line and "<none>" not in line[0]:
+            res["problems"].append("coqchk: %s" % line[0].strip())
+    if bad:
+        res["problems"].append("coqchk reports non-allow-listed axioms: %s" % ", ".join(bad))
+    res["coqchk"] = {"module": "QV.Properties.%s" % prop, "axioms": short, "ok": not bad}
+    res["checker_cmd"] += " && coqchk -silent -o QV.Properties.%s" % prop
 
 
 if __name__ == "__main__":
